@@ -28,6 +28,8 @@ pub struct Flags {
     pub v6: bool,
     /// scripted clients bind a source port in 600..=1024 (a transfer identifier may be any port)
     pub lowport: bool,
+    /// the served directories are handed to the server spelled with a trailing separator (`-d /srv/tftp/`)
+    pub trailing: bool,
     pub dup: u32,
 }
 
@@ -42,6 +44,7 @@ pub fn parse_flags(s: &str) -> Flags {
         many: s.contains('m'),
         v6: s.contains('v'),
         lowport: s.contains('p'),
+        trailing: s.contains('t'),
         dup: digits.parse().unwrap_or(0),
     }
 }
@@ -86,10 +89,11 @@ pub fn server_port(root: &Path, flags_s: &str) -> u16 {
         if fl.v6 {
             args.extend(["-i".into(), "::1".into()]);
         }
+        let spell = |d: &PathBuf| if fl.trailing { format!("{}/", d.display()) } else { d.display().to_string() };
         if fl.split {
-            args.extend(["-sd".into(), sd.display().to_string(), "-rd".into(), rd.display().to_string()]);
+            args.extend(["-sd".into(), spell(&sd), "-rd".into(), spell(&rd)]);
         } else {
-            args.extend(["-d".into(), sd.display().to_string()]);
+            args.extend(["-d".into(), spell(&sd)]);
         }
         if fl.single {
             args.push("-s".into());
